@@ -287,16 +287,46 @@ func main() {
 				fd.Body.List = instrList(fd.Body.List)
 			}
 		}
-		// uses of the constant outBufferLength as a call argument -> verifsched.BufLen(outBufferLength)
+		// every use of the constant outBufferLength -> verifsched.BufLen(outBufferLength)
+		// (so that a small capacity applies to any logic written in terms of the constant)
+		var fix func(e *ast.Expr)
+		fix = func(e *ast.Expr) {
+			if id, ok := (*e).(*ast.Ident); ok && id.Name == "outBufferLength" {
+				*e = &ast.CallExpr{Fun: &ast.SelectorExpr{X: ast.NewIdent("verifsched"), Sel: ast.NewIdent("BufLen")}, Args: []ast.Expr{id}}
+			}
+		}
 		ast.Inspect(f, func(n ast.Node) bool {
-			if c, ok := n.(*ast.CallExpr); ok {
-				if sel, ok := c.Fun.(*ast.SelectorExpr); ok && sel.Sel.Name == "BufLen" {
+			switch v := n.(type) {
+			case *ast.GenDecl:
+				if v.Tok == token.CONST {
 					return false
 				}
-				for i, a := range c.Args {
-					if id, ok := a.(*ast.Ident); ok && id.Name == "outBufferLength" {
-						c.Args[i] = &ast.CallExpr{Fun: &ast.SelectorExpr{X: ast.NewIdent("verifsched"), Sel: ast.NewIdent("BufLen")}, Args: []ast.Expr{id}}
-					}
+			case *ast.CallExpr:
+				if sel, ok := v.Fun.(*ast.SelectorExpr); ok && sel.Sel.Name == "BufLen" {
+					return false
+				}
+				for i := range v.Args {
+					fix(&v.Args[i])
+				}
+			case *ast.BinaryExpr:
+				fix(&v.X)
+				fix(&v.Y)
+			case *ast.AssignStmt:
+				for i := range v.Rhs {
+					fix(&v.Rhs[i])
+				}
+			case *ast.ReturnStmt:
+				for i := range v.Results {
+					fix(&v.Results[i])
+				}
+			case *ast.IndexExpr:
+				fix(&v.Index)
+			case *ast.SliceExpr:
+				if v.Low != nil {
+					fix(&v.Low)
+				}
+				if v.High != nil {
+					fix(&v.High)
 				}
 			}
 
